@@ -1,6 +1,6 @@
 (* C13 — the x-rust-type decision procedure.  Definitions only.
 
-   decide            typify-impl/src/rust_extension.rs:24-103 (convert_rust_extension)
+   decide            typify-impl/src/rust_extension.rs:24-113 (convert_rust_extension)
    convert_object    typify-impl/src/convert.rs:54-56 (extension consulted first)
    name_match        typify-impl/src/type_entry.rs:99-105
    convert_ref_def   typify-impl/src/lib.rs:694-756, the arms reachable from a
@@ -14,7 +14,10 @@
    NOT modelled (inputs instead): serde's parse of the extension value (the
    outcome `ExtMalformed | ExtOk`), `semver::VersionReq::parse` (the outcome
    `None | Some ast`, the AST is passed field by field from the real parser),
-   the conversion of each parameter schema (`id_for_schema`: `Some t | None`). *)
+   the conversion of each parameter schema (`id_for_schema`: `Some t | None`),
+   and `syn::parse_str::<syn::TypePath>(&path).is_ok()` (section variable
+   `path_is_type_path`; no hypothesis is made about it, its verdict on each
+   tested path is taken from the real syn parser by harness/src/bin/c13.rs). *)
 From Coq Require Import NArith List Bool String.
 From Typify Require Import Algo.Semver.
 Import ListNotations.
@@ -57,26 +60,6 @@ Definition last_segment (s : ustring) : ustring :=
   | None => s
   end.
 
-(* The README's schema for the extension gives `path` the pattern
-   ^[a-zA-Z0-9_]+(::[a-zA-Z0-9_]+)*$ (the README writes `+` for the second `_`).
-   convert_rust_extension does NOT check it; used to state finding C13-F1. *)
-Definition ident_char (c : N) : bool :=
-  ((48 <=? c) && (c <=? 57)) || ((65 <=? c) && (c <=? 90)) || ((97 <=? c) && (c <=? 122))
-  || (c =? underscore).
-
-Fixpoint readme_path_aux (s : ustring) (seen : bool) : bool :=
-  match s with
-  | [] => seen
-  | c :: t =>
-      if ident_char c then readme_path_aux t true
-      else match t with
-           | d :: t' => if (c =? colon) && (d =? colon) && seen then readme_path_aux t' false else false
-           | [] => false
-           end
-  end.
-
-Definition readme_path_ok (s : ustring) : bool := readme_path_aux s false.
-
 (* ------------------------------------------------------------ settings *)
 
 Inductive crate_vers := CVVersion (v : version) | CVAny | CVNever.
@@ -96,6 +79,8 @@ Fixpoint lookup (cs : crates) (k : ustring) : option crate_spec :=
 
 Section Decide.
 Context {T : Type}.    (* a converted parameter (a type id in Rust) *)
+(* syn::parse_str::<syn::TypePath>(&path).is_ok()  (rust_extension.rs:60-68) *)
+Context (path_is_type_path : ustring -> bool).
 
 Record extension := X {
   x_crate : ustring;
@@ -129,23 +114,24 @@ Definition decide (cs : crates) (pol : unknown_policy) (x : ext_parse) : decisio
     | None => Generate
     | Some k =>
       if negb (ustr_eqb crate_ident (firstn k (x_path e))) then Generate   (* :52-58 *)
+      else if negb (path_is_type_path (x_path e)) then Generate            (* :60-68 *)
       else
         let path' :=
-          match lookup cs (x_crate e) with                    (* :61 *)
+          match lookup cs (x_crate e) with                    (* :71 *)
           | Some spec =>
-              let ok := match cs_version spec with            (* :64-68 *)
+              let ok := match cs_version spec with            (* :74-78 *)
                         | CVAny => true
                         | CVVersion v => matches_req rq v
                         | CVNever => false
                         end in
               if ok then
-                Some (match cs_rename spec with               (* :71-75 *)
+                Some (match cs_rename spec with               (* :81-85 *)
                       | Some new_crate => dash_to_us new_crate ++ skipn k (x_path e)
                       | None => x_path e
                       end)
               else None
           | None =>
-              match pol with                                  (* :77-84 *)
+              match pol with                                  (* :87-94 *)
               | PGenerate => None
               | PAllow => Some (x_path e)
               | PDeny => None
@@ -154,9 +140,9 @@ Definition decide (cs : crates) (pol : unknown_policy) (x : ext_parse) : decisio
         match path' with
         | None => Generate
         | Some p =>
-            match collect (x_params e) with                   (* :89-97 *)
+            match collect (x_params e) with                   (* :99-107 *)
             | None => Generate
-            | Some ids => Use (sep ++ p) ids                  (* :99-102 *)
+            | Some ids => Use (sep ++ p) ids                  (* :109-112 *)
             end
         end
     end
@@ -237,8 +223,9 @@ Definition mk_ext (crate path : string) (params : list (option string)) : extens
 Definition mk_crates (l : list (string * crate_vers * option string)) : crates :=
   map (fun '(n, v, r) => (ustring_of_string n, CS v (option_map ustring_of_string r))) l.
 
-Definition run_decide (cs : list (string * crate_vers * option string)) (pol : unknown_policy)
+(* `tp` = verdict of the real syn parser on this case's path *)
+Definition run_decide (tp : bool) (cs : list (string * crate_vers * option string)) (pol : unknown_policy)
            (defname : option string) (x : ext_parse ustring) : string :=
-  show_decision (decide (mk_crates cs) pol x) ++ " / " ++
-  show_def (convert_ref_def (mk_crates cs) pol
+  show_decision (decide (fun _ => tp) (mk_crates cs) pol x) ++ " / " ++
+  show_def (convert_ref_def (fun _ => tp) (mk_crates cs) pol
               (match defname with Some n => NRequired (ustring_of_string n) | None => NUnknown end) x).
